@@ -1135,7 +1135,7 @@ func rulePosStmt(c *Ctx) []Obligation {
 	for _, p := range []struct{ mark, cur string }{{"sline", "line"}, {"scol", "col"}} {
 		con := fmt.Sprintf("start marker lexer.%s is captured from lexer.%s after the whitespace run and before the token is read", p.mark, p.cur)
 		fm, fc := FieldVar(m.lexer, p.mark), FieldVar(m.lexer, p.cur)
-		sts := storesToField(m.ground, fm)
+		sts := c.storesToFieldDeep(m.ground, fm)
 		if len(sts) != 1 {
 			obs = append(obs, bad(R, con, c.Pos(m.ground.Pos()), fmt.Sprintf("%d stores to the marker in the ground state", len(sts))))
 			continue
@@ -1173,8 +1173,8 @@ func rulePosStmt(c *Ctx) []Obligation {
 	for _, p := range []string{"sline", "scol"} {
 		fm := FieldVar(m.lexer, p)
 		for _, fn2 := range c.Funcs {
-			if fn2 == m.ground {
-				continue
+			if fn2 == m.ground || c.inlineRoot(fn2) == m.ground {
+				continue // the ground state itself, or a private helper of it (l.markStart())
 			}
 			for _, st := range storesToField(fn2, fm) {
 				if _, isAlloc := rootOf(st.Addr).(*ssa.Alloc); isAlloc {
